@@ -58,6 +58,20 @@ def base_streams(tier):
     for n in (5, 616, 617, 618, 619, 1300) if not quick else (5, 617, 618, 1300):
         pl = (b'randomised block %d ' % n * 100)[:n]
         one('D:rand%d' % n, Block(pl, rand=1), mutate='fields')
+    # a randomised block long enough to use the table of 512 random numbers more than once (it wraps
+    # after 278210 bytes); built from its BWT column, the plaintext follows from the reference steps
+    for n in ((300000,) if quick else (278200, 278212, 300000, 899000)):
+        Lr = b'ab' * (n // 2)
+        for extra in range(6):
+            try:
+                rle = bytearray(_ibwt(Lr, 0))
+                for pz in bzgen._rand_positions(len(rle)):
+                    rle[pz] ^= 1
+                plain_r = bzgen.unrle1(bytes(rle))
+                break
+            except bzgen.EndsInsideRun:
+                Lr += b'ab'
+        one('D:rand%d (table wraps)' % n, Block(L=Lr, origptr=0, rand=1, plain_for_crc=plain_r), level=9, mutate='none')
     # E: four equal bytes at the end, with / without count
     one('E:aaaa+0', Block(rle=b'aaaa\x00', plain_for_crc=b'aaaa'))
     one('E:aaaa nocount', Block(rle=b'aaaa', plain_for_crc=b'aaaa'))
